@@ -127,6 +127,9 @@ func c02Sub(name, dir string, qn, tn int) *engine.Sub {
 			e1, e2 := bothVerdicts(inv, ld)
 			ctx.Eval(2)
 			ctx.Outcome(errLabel(e1))
+			if dir == "sound" && bad > 0 && n <= 3 {
+				oddHooksRefuse(ctx, cs, inv, ld, "a link of "+c02Describe(cs)+" widens the command")
+			}
 			for k, e := range []error{e1, e2} {
 				api := [2]string{"ExecutionAllowed", "ExecutionAllowedWithArgsHook"}[k]
 				if dir == "sound" && e == nil && bad > 0 {
@@ -261,7 +264,7 @@ func C02() *engine.Check {
 	return &engine.Check{
 		Property: "C02",
 		Level:    "model_checking",
-		Subs:     []*engine.Sub{c02Sub("command-attenuation", "sound", 4, 5), c02SeqSub("sound"), c02LoopSub("sound"), c02WsSub("sound"), longChainSub("C02")},
+		Subs:     []*engine.Sub{c02Sub("command-attenuation", "sound", 4, 5), c02SeqSub("sound"), c02LoopSub("sound"), c02WsSub("sound"), clockSub("C02"), longChainSub("C02")},
 		Assumptions: []string{
 			"principals are aligned correctly, policies empty, no time bounds: only the command rule can fire",
 			"reference cover relation = segment-prefix order (refmodel.CmdCovers), independent of Command.Covers",
